@@ -106,8 +106,7 @@ Definition verdict_print (c : pcase) : list nat :=
   end ++
   (* oracle: the text the implementation printed, run by nm_exec, against the value of the IR *)
   match p_impl c with
-  | None => if g_printable e then [14]
-            else (if g_no_fn2 e then [] else [26]) ++ (if g_no_invfn e then [] else [27])
+  | None => [14]
   | Some b =>
       let res := map (fun r => (cmp_oq (value_after r b x) (eval r std_fi e),
                                 (g_wf e, g_self_free D x e, g_disjoint std_fi r D x e, g_zero_fresh r D x e))) envs in
@@ -122,7 +121,7 @@ Definition verdict_print (c : pcase) : list nat :=
   tag (forallb (fun r => g_disjoint std_fi r D x e) envs) 201 ++
   tag (g_self_free D x e) 202 ++
   tag (forallb (fun r => g_zero_fresh r D x e) envs) 203 ++
-  tag (g_wf e) 204 ++ tag (g_printable e) 207 ++
+  tag (g_wf e) 204 ++
   [300 + print_form D x e].
 
 (* ================= stream 3: boolean conditions ============================================== *)
@@ -144,12 +143,11 @@ Definition verdict_cond (c : ccase) : list nat :=
   | Some b =>
       match cond_agree 2 envs b (sem (c_cond c)) with
       | 0 => []
-      | 1 => if guard_cond (c_cond c) then [17]
-             else (if g_binary (c_cond c) then [] else [24]) ++ (if g_prec (c_cond c) then [] else [25])
+      | 1 => [17]
       | _ => [1017]
       end
   end ++
-  tag (g_binary (c_cond c)) 205 ++ tag (g_prec (c_cond c)) 206.
+  tag (shape_binary (c_cond c)) 205 ++ tag (shape_no_or_under_and (c_cond c)) 206 ++ tag (guard_cond (c_cond c)) 210.
 
 (* ================= stream 4: a whole generated control stream ================================ *)
 Record hcase := mkH {
@@ -249,11 +247,6 @@ Definition names_taken (c : hcase) : bool :=
   all_assigned c (h_trans c) &&
   existsb (fun f => negb (forallb (fun x => memp x (param_names (h_advan c) (h_trans c))) (free_syms (snd f))))
           (h_flows c).
-Definition stale_scale (c : hcase) : bool :=
-  (* F is scaled by S<k> although the amount it reads is compartment n <> k, in a $MODEL-defined model *)
-  negb (match advan_ncomp (h_advan c) with Some _ => true | None => false end) &&
-  existsb (fun t => let '(kind, used, expected) := t in Nat.eqb kind 4 && negb (Nat.eqb used expected)) (h_index c).
-
 Definition des_missing (c : hcase) : bool :=
   is_des_advan (h_advan c) && match h_des c with [] => true | _ => false end.
 
@@ -338,7 +331,6 @@ Definition verdict_hist (c : hcase) : list nat :=
    else [40]) ++
   (if missing_pk_param c && negb (other_trans_defined c) then [28] else []) ++
   (if other_trans_defined c then [44] else []) ++ (if names_taken c then [47] else []) ++ (if volume_is_one c then [46] else []) ++
-  (if stale_scale c then [29] else []) ++
   (if des_missing c then [30] else []) ++
   (* 41: parameters and random variables of the re-read model *)
   (if h_rr_ok c then tag (list_eqb par_eqb (h_par c) (h_rr_par c) && h_rvs_ok c) 41 else []).
